@@ -13,10 +13,16 @@ theorem sliceCap_isPanic (fill : UInt8) (s : GoSlice) (hi : Nat) :
   · simp [h, Nat.not_lt.mpr h]
   · simp [h, Nat.lt_of_not_le h]
 
-theorem bind_branch_isPanic (x : Outcome Bytes) :
-    (x.bind fun p => if p == dashes then Outcome.ok Branch.pem else Outcome.ok Branch.symmetric).isPanic = x.isPanic := by
+theorem sliceCap_eq_slice (fill : UInt8) (raw : Bytes) (spare hi : Nat) (h : hi ≤ raw.length) :
+    sliceCap fill { data := raw, spare := spare } 0 hi = slice raw 0 hi := by
+  have hcap : hi ≤ GoSlice.cap { data := raw, spare := spare } := by simp only [GoSlice.cap]; omega
+  simp only [sliceCap, slice, hcap, h, Nat.zero_le, and_self, if_true, List.drop_zero, Nat.sub_zero,
+    List.take_append_of_le_length h]
+
+theorem bind_isPanic_of_total {α β} (x : Outcome α) (f : α → Outcome β) (h : ∀ a, (f a).isPanic = false) :
+    (x.bind f).isPanic = x.isPanic := by
   cases x with
-  | ok p => simp only [bind_ok]; split <;> rfl
+  | ok a => simpa using h a
   | err e => rfl
   | panic w => rfl
 
@@ -31,22 +37,28 @@ theorem parseKeyBranchOn_isPanic (bound hi : Nat) (fill : UInt8) (view : GoSlice
   | nil => simp [parseKeyBranchOn, sniffReached, GoSlice.len]
   | cons c rest =>
     have hidx : idx (c :: rest) 0 = .ok c := by simp [idx]
+    have hl : ((rest.length + 1 == 0) = true) = False := by simp
     unfold parseKeyBranchOn sniffReached
-    simp only [GoSlice.len, List.length_cons, hidx, bind_ok, List.head?_cons]
-    by_cases h1 : ct = "application/json"
-    · simp [h1]
-    · by_cases h2 : (ct == "application/x-pem-file" || ct == "application/pkcs8") = true
-      · simp [h1, h2]
-      · by_cases h3 : (c == 123 && rest.length + 1 != 16 && rest.length + 1 != 24 && rest.length + 1 != 32) = true
-        · have h3' : (some c == some (123 : UInt8) && rest.length + 1 != 16 && rest.length + 1 != 24 && rest.length + 1 != 32) = true := by
-            simpa using h3
-          simp [h1, h2, h3, h3']
-        · have h3' : (some c == some (123 : UInt8) && rest.length + 1 != 16 && rest.length + 1 != 24 && rest.length + 1 != 32) = false := by
-            simpa using h3
-          by_cases h4 : rest.length + 1 > bound
-          · simp only [h1, h2, h3, h3', h4]
-            simp [bind_branch_isPanic, sliceCap_isPanic]
-          · simp [h1, h2, h3, h3', h4]
+    simp only [GoSlice.len, List.length_cons, hidx, bind_ok, hl, if_false]
+    generalize (ct == "application/json") = b1
+    generalize (ct == "application/x-pem-file" || ct == "application/pkcs8") = b2
+    by_cases h3 : (c == 123 && rest.length + 1 != 16 && rest.length + 1 != 24 && rest.length + 1 != 32) = true
+    · simp only [h3]; cases b1 <;> cases b2 <;> simp
+    · have h3' : (c == 123 && rest.length + 1 != 16 && rest.length + 1 != 24 && rest.length + 1 != 32) = false := by
+        simpa using h3
+      simp only [h3']
+      by_cases h4 : rest.length + 1 > bound
+      · cases b1 <;> cases b2 <;> simp [h4]
+        rw [bind_isPanic_of_total _ _ (fun p => by split <;> rfl), sliceCap_isPanic]
+      · cases b1 <;> cases b2 <;> simp [h4]
+
+theorem sniffReached_length {bound : Nat} {raw : Bytes} {ct : String} (h : sniffReached bound raw ct = true) :
+    raw.length > bound := by
+  cases raw with
+  | nil => simp [sniffReached] at h
+  | cons c rest =>
+    simp only [sniffReached, Bool.and_eq_true, decide_eq_true_eq] at h
+    simpa using h.2
 
 theorem dropWhile_all {α} (p : α → Bool) : ∀ l : List α, l.dropWhile p = [] ↔ l.all p = true
   | [] => by simp
